@@ -197,9 +197,9 @@ Definition show_fine_run (mode : clock_mode) (t0 : N) (ops : list cop) (goal : o
           match read_histories cticket c_teqb c_hr w1 (p_nodes pack) with
           | None => lit "(fine noplan)"
           | Some hists =>
-              let (blobs, t') := take_blobs c_hc t (worker_paths pack) in
+              let (blobs, t') := take_blobs cticket c_hc t (worker_paths pack) in
               let n := nworkers pack in
-              let st0 := mk_fn w1 (repeat (mk_wst cticket WWait None []) n) (repeat None n) (repeat None n) [] in
+              let st0 := mk_fn (write_table cticket w1 t') (repeat (mk_wst cticket WWait None []) n) (repeat None n) (repeat None n) [] in
               let (st1, bad) := replay_events pack blobs hists events st0 O in
               let results := flat_map (fun o => match o with Some r => [r] | None => [] end) (fn_res st1) in
               let js := fold_left (join_one cticket c_teqb c_hr) results (mk_js cticket (fn_world st1) t' [] []) in
